@@ -1,4 +1,8 @@
+import Mp.CueSteps
 import Mp.CueProofs
 /-! C13 — CueValidate accepts a key path iff the schema declares it: property theorems (proved in Mp.CueProofs). -/
 #print axioms Mp.fvp_snoc
 #print axioms Mp.validate_walk
+#print axioms Mp.validate_walk_steps
+#print axioms Mp.validateSteps_keys
+#print axioms Mp.specWalkS_keys
